@@ -1023,9 +1023,15 @@ func (au *ApplyUpdate) UnmarshalJSON(b []byte) error {
 		numLeaves:    js.NumLeaves,
 	}
 	for i, els := range js.UpdatedLeaves {
+		if i < 0 || i >= len(au.eau.updated) {
+			return fmt.Errorf("invalid tree height %d in updatedLeaves", i)
+		}
 		au.eau.updated[i] = els
 	}
 	for i, els := range js.TreeGrowth {
+		if i < 0 || i >= len(au.eau.treeGrowth) {
+			return fmt.Errorf("invalid tree height %d in treeGrowth", i)
+		}
 		au.eau.treeGrowth[i] = els
 	}
 	return nil
@@ -1068,6 +1074,9 @@ func (ru *RevertUpdate) UnmarshalJSON(b []byte) error {
 		numLeaves: js.NumLeaves,
 	}
 	for i, els := range js.UpdatedLeaves {
+		if i < 0 || i >= len(ru.eru.updated) {
+			return fmt.Errorf("invalid tree height %d in updatedLeaves", i)
+		}
 		ru.eru.updated[i] = els
 	}
 	return nil
